@@ -1,11 +1,7 @@
 /-
-  PENDING (not under Y0/, hence not built): the composed statement of C01 `id_sound` and C10 `canon_den`.
-  It needs Y0/Props/C10Sem.lean (expr side) and Y0/Props/C01Sem.lean (id side) in ONE file, which fails today with
-      import ... failed, environment already contains 'Y0.mem_dedup'' from Y0.Lemmas.DslList
-  (duplicates: `Y0.mem_dedup'`, `Y0.nodup_dedup'` in Lemmas/DslList.lean vs Lemmas/Graph.lean; `Y0.den_mkFrac` in
-  Lemmas/SemBasic.lean vs Lemmas/IdDen.lean).  After renaming those three lemmas on one side, move this file to
-  Y0/Props/C10SemId.lean; it was type-checked on a scratch copy of the tree with the rename applied
-  (tools/sem_pending_check.sh).
+  C10SemId — the composed statement of C01 `id_sound` (stated over the environment `M.env G` of a semi-Markovian model)
+  and C10 `canon_den` (stated over every `ProbFamily` environment), through the total environment `M.envX G`:
+  Y0/Props/C10Sem.lean (`canonical_of_sound`, expr side) + Y0/Props/C01Sem.lean (id side).
 -/
 import Y0.Props.C10Sem
 import Y0.Props.C01Sem
@@ -18,7 +14,7 @@ open Scm
 `canonicalize` turns it into `e'` (again a single-world expression over the nodes: decidable `Expr.swOK`), then `e'`
 evaluated on the observational distribution of any compatible semi-Markovian model is the interventional distribution. -/
 theorem id_sound_canonical {topo : MG Name → Except Err (List Name)} (ts : TopoSound topo) (G : MG Name)
-    (X Y : List Name) (hq : ValidQuery G X Y) (e : Expr) (h : IdDsl.identify topo G X Y = .ok e)
+    (X Y : List Name) (hq : ValidQuery G X Y) (e : Expr) (h : identify topo G X Y = .ok e)
     (M : Scm) (hM : M.Compatible G) {ordering : Option (List Var)} {e' : Expr}
     (hws : WellScoped e = true) (hc : canonicalize e ordering = .ok e') (hsw' : e'.swOK G = true)
     (σ' σ : Val) (hσ : InRange (M.env G) σ) (hσ' : InRange (M.env G) σ') :
